@@ -214,7 +214,9 @@ pub fn check_topk(spec: &TopkSpec, result: &[(u32, f32)]) -> Result<(), String> 
                 o.d, o.tol
             ));
         }
-        let k = rank_key(spec.metric, o.d);
+        // inside the band around Cosine's zero guard (|p||q| ~ f32::EPSILON) both outcomes are legitimate; when the
+        // crate took the guard (reported exactly 0) that item ranks as a distance of 0, not as its cosine
+        let k = if o.zero_ok && wide(*rep) == 0.0 { rank_key(spec.metric, 0.0) } else { rank_key(spec.metric, o.d) };
         if o.accurate && k > worst_key {
             worst_key = k;
             worst_tol = o.tol;
